@@ -273,8 +273,24 @@ def run_C18(case):
         rng = random.Random(case.get("obs_seed", 0))
         n = len(log)
         only = case.get("only_cuts")  # replay files may pin the cuts
+        # a request that appends hundreds of stubs in a row (a hub) is cut at the first and last four
+        # positions of the run and at eight seeded inner ones; every other position of the log is cut
+        skip = set()
+        k0 = 0
+        while k0 < n:
+            k1 = k0
+            while k1 < n and log[k1][2] == "append" and log[k1][1].endswith("link_store.dat"):
+                k1 += 1
+            if k1 - k0 > 32:
+                inner = list(range(k0 + 5, k1 - 4))
+                keep = set(rng.sample(inner, min(8, len(inner))))
+                skip.update(x for x in inner if x not in keep)
+                res.stats["long_stub_runs_sampled"] += 1
+            k0 = max(k1, k0 + 1)
         cuts = []
         for k in range(n + 1):
+            if k in skip:
+                continue
             cuts.append((k, None))
             if k >= 1 and log[k - 1][2] == "append":
                 L = len(log[k - 1][4])
@@ -398,5 +414,5 @@ def gen_C18(rng, tier, seed):
             rules.append([O.enc(a), rng.choice(["domain", "path1"])])
         c["ops"].insert(pos, {"op": "clear", "default": rng.choice([None, "domain", "path1"]), "rules": rules})
     c["inline"] = [[rng.random(), rng.random() < 0.5] for _ in range(rng.choice([0, 1, 2]))]
-    c["max_events"] = 700 if tier == "quick" else 1500
+    c["max_events"] = 400 if tier == "quick" else 1500
     return c
